@@ -127,6 +127,24 @@ type poolCall struct {
 }
 
 // absoluteFailure: a call kind that checks something about its own results says so in its result
+// reentrantWriter prints through the library from inside Write and checks that the bytes it was given stay what they were.
+type reentrantWriter struct {
+	got     string
+	mutated string
+}
+
+func (w *reentrantWriter) Write(p []byte) (int, error) {
+	before := string(p)
+	for i := 0; i < 3; i++ {
+		_ = redact.Sprintf("%s %d", strings.Repeat("Z", len(p)+i), i)
+	}
+	if string(p) != before && w.mutated == "" {
+		w.mutated = fmt.Sprintf("the bytes handed to Write changed from %q to %q while the destination printed something itself", before, string(p))
+	}
+	w.got += before
+	return len(p), nil
+}
+
 func absoluteFailure(got string) bool { return strings.Contains(got, "RESULT-MUTATED") }
 
 func guardCall(fn func() string) (out string) {
@@ -185,6 +203,17 @@ var poolCalls = []poolCall{
 		var b bytes.Buffer
 		n, err := redact.Fprintf(&b, "%v-%v", "f", redact.Safe(9))
 		return fmt.Sprintf("%s n=%d err=%v", b.String(), n, err)
+	}},
+	// a destination that prints on its own account while it is being written to (a logger whose sink logs): the bytes
+	// handed to Write are the caller's until Write returns -- they must not change under the destination's feet
+	{"fprint-reentrant", func() string {
+		w := &reentrantWriter{}
+		n, err := redact.Fprintf(w, "%s|%v|%d", "first-operand", redact.Safe("s"), 12345)
+		n2, err2 := redact.Fprint(w, "second", 7, []interface{}{"x", 2})
+		if w.mutated != "" {
+			return "RESULT-MUTATED: " + w.mutated
+		}
+		return fmt.Sprintf("%s n=%d,%d err=%v,%v", w.got, n, n2, err, err2)
 	}},
 	{"builder", func() string {
 		var sb redact.StringBuilder
